@@ -35,16 +35,16 @@ ASSUMPTIONS = ['bases are normalised absolute http(s) URIs without fragment (the
 RULE = ('bases: normalised http(s) URIs with/without path, trailing slash, query; references: scheme-qualified, network-path, absolute-path, relative-path over '
 	'{".", "..", "", "g", "a.b", "...", segments with an encoded slash in either letter case next to dots, escapes with hex digits in mixed case}; network-path references also handed to join() as URI object / tuple / keywords with the host in upper case, query-only, fragment-only, empty; non-trivial = result differs from both base and reference text; distinct by result')
 
-BASES = [u'http://[2001:db8::1]/a/b?q', u'http://[v1.fe:DC]:81/x/y', u'http://a/b/c/d;p?q', u'http://a/b/c/d', u'http://a/b/c/', u'http://a', u'http://a/', u'https://h.example/x', u'http://a/b?x=1', u'https://u:p@h:8443/p/q/r', u'http://a/b/c/d/e/f/', u'http://svc:20:r:k@a/b/c', u'http://a/b?x=1%2B1&y=+z']
+BASES = [u'http://[2001:db8::1]/a/b?q', u'http://[v1.fe:DC]:81/x/y', u'http://a/b/c/d;p?q', u'http://a/b/c/d', u'http://a/b/c/', u'http://a', u'http://a/', u'https://h.example/x', u'http://a/b?x=1', u'https://u:p@h:8443/p/q/r', u'http://a/b/c/d/e/f/', u'http://svc:20:r:k@a/b/c', u'http://a/b?x=1%2B1&y=+z', u'http://a/b?x?y']
 RSEGS = [u'.', u'..', u'', u'g', u'a.b', u'...', u'h', u'g', u'h', u'x:', u'http:', u'a:b', u'@', u'a@b', u'x%2F..', u'%2F..', u'g%2Fh', u'y%2f..', u'..%2F', u'%2f', u'%cE%bB', u'%c3%Ab', u'%Ce%Bb.x']
-RFC_EXAMPLES = [u'g:h', u'g', u'./g', u'g/', u'/g', u'//g', u'?y', u'g?y', u'#s', u'g#s', u'g?y#s', u';x', u'g;x', u'g;x?y#s', u'', u'.', u'./', u'..', u'../', u'../g', u'../..', u'../../', u'../../g',
+RFC_EXAMPLES = [u'mailto:John.Doe@example.com', u'urn:isbn:0451450523', u'tel:+1-816-555-1212', u'news:comp.lang@x', u'g?y?z', u'?objectClass?one', u'//h/p?a?b#c?d', u'g:h', u'g', u'./g', u'g/', u'/g', u'//g', u'?y', u'g?y', u'#s', u'g#s', u'g?y#s', u';x', u'g;x', u'g;x?y#s', u'', u'.', u'./', u'..', u'../', u'../g', u'../..', u'../../', u'../../g',
 	u'../../../g', u'../../../../g', u'/./g', u'/../g', u'g.', u'.g', u'g..', u'..g', u'./../g', u'./g/.', u'g/./h', u'g/../h', u'g;x=1/./y', u'g;x=1/../y', u'g?y/./x', u'g#s/./x', u'http:g', u'HTTP://X/./y']
 
 
 def gen_ref(rng):
 	kind = rng.randrange(8)
 	segs = u'/'.join(rng.choice(RSEGS) for _ in range(rng.randrange(1, 6)))
-	q = rng.choice([u'', u'', u'?y', u'?y=1&z', u'?t=12:30', u'?u=http://o/i', u'?a/b', u'?a@b', u'?a%20b=c%26d', u'?%41=%7e', u'?k=%C3%9C', u'?%E2%82%AC=%C3%9F', u'?x=%C2%80', u'?x=1%2B1', u'?a%2Bb=c+d', u'?+=%2B'])
+	q = rng.choice([u'', u'', u'?y', u'?y=1&z', u'?t=12:30', u'?u=http://o/i', u'?a/b', u'?a@b', u'?a%20b=c%26d', u'?%41=%7e', u'?k=%C3%9C', u'?%E2%82%AC=%C3%9F', u'?x=%C2%80', u'?x=1%2B1', u'?a%2Bb=c+d', u'?+=%2B', u'?y?z', u'?a=b?c=d', u'??'])
 	f = rng.choice([u'', u'', u'#s', u'#a:b', u'#x/y', u'#//z', u'#a%20b', u'#%41', u'#%C3%A9', u'#a%2Fb?c', u'#%25'])
 	if kind == 0:
 		return rng.choice([u'http', u'https', u'ftp', u'x']) + u'://' + rng.choice([u'b', u'B.c', u'u@b:81']) + u'/' + segs + q + f
@@ -205,9 +205,17 @@ def oracle(case):
 	plain = (ts or u'') + u'://' + (ta or u'') + tp + (u'?' + tq if tq is not None else u'') + (u'#' + tf if tf is not None else u'')
 	import re as _re2
 	if ts in (u'http', u'https') and ta and tp and _re2.match(u"^https?://[a-z0-9]+(\\.[a-z0-9]+)*(:[0-9]+)?/[A-Za-z0-9._~:@;=/-]*(\\?[A-Za-z0-9._~:@;=/&?-]+)?(#[A-Za-z0-9._~:@;=/?-]+)?$", plain) \
-			and not _re2.search(u':(80|443)(/|$)', plain[6:]) and not rootless_dots(ref) and u'//' not in tp:
+			and not _re2.search(u':(80|443)(/|$)', plain[6:]) and not rootless_dots(ref) and u'//' not in tp \
+			and not any(pair.count(u'=') > 1 for pair in (tq or u'').split(u'&')):      # (a second '=' inside a pair is data for the query codec, which escapes it: another spelling of the same pairs)
 		if text(got) != plain:
 			return {'what': 'the result is written %r, RFC 3986 5.2 gives %r (nothing in it needs escaping)' % (text(got), plain), 'base': base, 'ref': ref, 'finding': None}
+	# a scheme-qualified reference without authority and with a one-segment rootless path (mailto:, urn:, tel:): the reference alone
+	# decides, and ':' and '@' inside such a path are data that needs no escaping (RFC 3986 3.3: pchar)
+	rs_, ra_, rp_, rq_, rf_ = rfc3986.split(ref)
+	if rs_ is not None and ra_ is None and rq_ is None and rf_ is None and _re2.match(u"^[A-Za-z][A-Za-z0-9+.-]*$", rs_) and _re2.match(u"^[A-Za-z0-9._~:@+,;=-]+$", rp_) and rp_ not in (u'.', u'..'):
+		want_text = rs_.lower() + u':' + rp_
+		if text(got) != want_text:
+			return {'what': 'the result is written %r, the reference %r alone decides and nothing in it needs escaping' % (text(got), want_text), 'base': base, 'ref': ref, 'finding': None}
 	# the authority with user information, read off the RFC result without the library's parser (a password may contain colons)
 	if ta and ts in (u'http', u'https') and _re2.match(u'^[a-z0-9:]*@[a-z0-9.]+(:[0-9]+)?$', ta):
 		want_auth = _re2.sub(u':(80|443)$', u'', ta) if ta.endswith(u':80' if ts == u'http' else u':443') else ta
